@@ -162,6 +162,7 @@ def run(ctx):
         if ctx.mine(k):
             compare(ctx, case, "clause")
     minimal_start_cases(ctx)
+    child_input_cases(ctx)
     # histories of definitions under one ARN
     for k in range(ctx.pick(160, 3000)):
         if ctx.mine(k):
@@ -305,6 +306,50 @@ def minimal_start_cases(ctx):
             ctx.nontrivial(asl); ctx.distinct("cases", dict(asl=asl, minimal=True))
             if not corpus.agrees(outs, st, out, err):
                 ctx.violation("outcome-not-admissible", dict(asl=asl, input=data, engine=[st, out, err], expected=[repr(o) for o in outs[:2]], family="minimal-start"), None)
+
+
+def child_input_cases(ctx):
+    """A state machine run as a synchronous child computes on the Input its parent's Parameters prescribe - whatever JSON value that is - and the parent's
+    Task result carries the child's output: parent(v) = child(v) for an echo child, for every form of the integration."""
+    from lsfverif.sim.world import World
+    child = {"StartAt": "E", "States": {"E": {"Type": "Pass", "End": True}}}
+    values = [0, False, "", [], {}, 1, True, "s", [0], {"a": None}, [[]], 2.5]
+    forms = [("states", "startExecution.sync:2", "$.Output", "STANDARD"), ("states", "startExecution.sync", "$.Output", "STANDARD"),
+             ("aws-sdk", "sfn:startSyncExecution", "$.Output", "EXPRESS")]
+    k = 0
+    for rtype, res, outpath, ctype in forms:
+        for by_path in (True, False):
+            k += 1
+            if not ctx.mine(k):
+                continue
+            with World(seed=ctx.seed) as w:
+                carn = w.create_machine("kid", child, typ=ctype)
+                for j, v in enumerate(values):
+                    params = {"StateMachineArn": carn, "Name": "k%d" % j}
+                    if by_path:
+                        params["Input.$"] = "$.v"
+                    else:
+                        params["Input"] = v
+                    parent = {"StartAt": "L", "States": {"L": {"Type": "Task", "Resource": "arn:aws:states:local:0123456789:%s:%s" % (rtype, res), "Parameters": params,
+                                                               "OutputPath": outpath, "End": True}}}
+                    parn = w.create_machine("p%d" % j, parent)
+                    e = w.start_event(parn, "e", {"v": v})
+                    w.run()
+                    st, out, err, t = w.outcome(e)
+                    ctx.evaluation(); ctx.count("compared"); ctx.count("child_input_cases"); ctx.nontrivial([res, by_path, j])
+                    want = v if res.endswith(":2") else json.dumps(v)
+                    got = out
+                    if res.endswith(":2"):
+                        ok = st == "SUCCEEDED" and json.dumps(got, sort_keys=True) == json.dumps(want, sort_keys=True) and type(got) is type(want)
+                    else:
+                        # Output is a JSON *string* for these forms
+                        try:
+                            ok = st == "SUCCEEDED" and isinstance(got, str) and json.dumps(json.loads(got), sort_keys=True) == json.dumps(v, sort_keys=True) and type(json.loads(got)) is type(v)
+                        except Exception:
+                            ok = False
+                    if not ok:
+                        ctx.violation("outcome-not-admissible", dict(family="child-input", form=res, input_by_path=by_path, value=v, engine=[st, out, err], parent=parent, child=child),
+                                      "null-document-as-empty-object" if v is None else None)
 
 
 def _case(asl, data, funcs=None):
